@@ -131,16 +131,34 @@ func loadFile(sys fs.FS, fname string) (pkgList, error) {
 }
 
 func checkConstraint(s string) (bool, error) {
-	// a //go:build line may be preceded by blank lines and other line comments
+	// a //go:build line may be preceded by blank lines and other comments (line and block comments)
 	line := ""
+	inBlock := false
+header:
 	for _, l := range strings.Split(s, "\n") {
 		l = strings.TrimSpace(l)
-		if constraint.IsGoBuild(l) {
+		if !inBlock && constraint.IsGoBuild(l) {
 			line = l
 			break
 		}
-		if l != "" && !strings.HasPrefix(l, "//") {
-			break
+		for l != "" {
+			if inBlock {
+				i := strings.Index(l, "*/")
+				if i < 0 {
+					break
+				}
+				inBlock = false
+				l = strings.TrimSpace(l[i+2:])
+				continue
+			}
+			if strings.HasPrefix(l, "//") {
+				break
+			}
+			if !strings.HasPrefix(l, "/*") {
+				break header
+			}
+			inBlock = true
+			l = l[2:]
 		}
 	}
 	if line == "" {
